@@ -9,7 +9,10 @@ from sympy.matrices.dense import DenseMatrix
 from sympy.printing.latex import LatexPrinter, accepted_latex_functions
 from sympy.core.function import AppliedUndef
 from sympy.simplify import fraction
+from sympy.printing.precedence import PRECEDENCE
 from ..core.symbols.symbols import DimensionSymbol, Function, IndexedSymbol
+from ..core.operations.sum_indexed import IndexedSum
+from ..core.operations.product_indexed import IndexedProduct
 from .miscellaneous import process_function
 
 _between_two_numbers_p = (
@@ -150,6 +153,13 @@ class SymbolLatexPrinter(LatexPrinter):  # type: ignore[misc]
         name = f"{args_str}" if can_fold_brackets else f"\\left({args_str} \\right)"
         tex = f"\\exp{{{name}}}"
         return str(self._do_exponent(tex, exp))
+
+    def parenthesize(self, item: Any, level: int, is_neg: bool = False, strict: bool = False) -> str:
+        # "\\sum_i x_i" and "\\prod_i x_i" extend over the product to their right: they need brackets
+        # wherever something binds tighter than a product (factorial argument, base of a power)
+        if isinstance(item, (IndexedSum, IndexedProduct)) and level > PRECEDENCE["Mul"]:
+            return str(self._add_parens(self._print(item)))
+        return str(super().parenthesize(item, level, is_neg=is_neg, strict=strict))
 
     # pylint: disable-next=invalid-name
     def _print_IndexedSum(self, expr: Any) -> str:
